@@ -361,7 +361,7 @@ pub fn attr_byte(a: &embedded_sdmmc::Attributes) -> u8 {
 }
 
 pub fn cluster_num(c: &embedded_sdmmc::ClusterId) -> u32 {
-    // ClusterId's field is private; Debug prints it in hex or as a symbolic name
+    // ClusterId's field is private; Debug prints it in hex or as a (padded) symbolic name
     let s = format!("{:?}", c);
     let inner = s.trim_start_matches("ClusterId(").trim_end_matches(')').trim();
     match inner {
@@ -593,7 +593,7 @@ pub fn c18(ctx: &Ctx) -> Report {
     let sizes: Vec<u32> = vec![0, 1, 511, 512, 0xFFFF, 0x10000, 0x7FFF_FFFF, 0x8000_0000, 0xFFFF_FFFF];
     let stamps: Vec<(u16, u16)> = vec![(0x0021, 0), (0x4A8F, 0xBF7D), (0xFF9F, 0xBF7D), (0x5A21, 0x8C3E), (0, 0), (0xFFFF, 0xFFFF)];
     let mut n_entries = 0u64;
-    let mut entry_case = |rep: &mut Report, batch: &mut Vec<(String, String, Vec<u8>)>, name: &[u8; 11], attr: u8, ct: (u16, u16), mt: (u16, u16), cluster: u32, size: u32| {
+    let entry_case = |rep: &mut Report, batch: &mut Vec<(String, String, Vec<u8>)>, name: &[u8; 11], attr: u8, ct: (u16, u16), mt: (u16, u16), cluster: u32, size: u32| {
         for ft in [FatType::Fat16, FatType::Fat32] {
             rep.cases += 1;
             let fts = if ft == FatType::Fat16 { "16" } else { "32" };
@@ -1068,13 +1068,20 @@ fn dbg_field(s: &str, key: &str) -> Option<String> {
 }
 
 fn dbg_num(v: &str) -> Option<u64> {
-    // "BlockIdx(1)", "BlockCount(15136)", "Some(BlockCount(3))", "ClusterId(00000002)", "8", "None"
-    let digits: String = v.chars().rev().skip_while(|c| *c == ')').take_while(|c| c.is_ascii_alphanumeric()).collect::<String>().chars().rev().collect();
-    if v.contains("ClusterId(") {
-        u64::from_str_radix(&digits, 16).ok()
-    } else {
-        digits.parse().ok()
+    // "BlockIdx(1)", "BlockCount(15136)", "Some(BlockCount(3))", "ClusterId(00000002)", "ClusterId(EMPTY   )", "8", "None"
+    if let Some(i) = v.find("ClusterId(") {
+        let inner = v[i + 10..].split(')').next().unwrap_or("").trim();
+        return match inner {
+            "INVALID" => Some(0xFFFF_FFF6),
+            "BAD" => Some(0xFFFF_FFF7),
+            "EMPTY" => Some(0),
+            "ROOT" => Some(0xFFFF_FFFC),
+            "EOF" => Some(0xFFFF_FFFF),
+            h => u64::from_str_radix(h, 16).ok(),
+        };
     }
+    let digits: String = v.chars().rev().skip_while(|c| *c == ')').take_while(|c| c.is_ascii_alphanumeric()).collect::<String>().chars().rev().collect();
+    digits.parse().ok()
 }
 
 /// Mount through the real API and describe the resulting volume in the model driver's `showVol` format.
@@ -1082,6 +1089,7 @@ pub fn impl_mount(blocks: &BTreeMap<u32, [u8; 512]>, idx: usize) -> String {
     let blocks = blocks.clone();
     let r = catch_unwind(AssertUnwindSafe(move || {
         let disk = RamDisk::new(blocks);
+        let disk2 = disk.clone();
         let mgr: embedded_sdmmc::VolumeManager<RamDisk, Clock, 4, 4, 4> = embedded_sdmmc::VolumeManager::new_with_limits(disk, Clock, 100);
         match mgr.open_raw_volume(embedded_sdmmc::VolumeIdx(idx)) {
             Ok(_) => {
@@ -1095,7 +1103,7 @@ pub fn impl_mount(blocks: &BTreeMap<u32, [u8; 512]>, idx: usize) -> String {
                 let fat32 = s.contains("Fat32(");
                 // VolumeName(contents) is printed through Display: recover the raw label from the BPB instead
                 let lba: u32 = n("lba_start").parse().unwrap_or(0);
-                let bpb = mgr.device(|d: &mut RamDisk| d.0.borrow().get(lba));
+                let bpb = disk2.0.borrow().get(lba);
                 let label = if fat32 { hex(&bpb[71..82]) } else { hex(&bpb[43..54]) };
                 format!(
                     "ft={} lba={} nb={} name={} bpc={} fd={} fs={} f2={} fc={} nf={} cc={} re={} rb={} il={} rc={}",
